@@ -934,11 +934,12 @@ def judge_structure(ctx, case, buf, trace, exc=None):
             p = trace['pix']
             diag += (f"; {p['chunk_writes']} chunk writes of chunk_size={p['chunk_size']} put "
                      f"{p['pixels_written']} of {p['npix']} pixels")
+        short = {'pix_data_block': 'pix_block', 'dnd_data_block': 'dnd_block'}.get(d.block_type, 'data_block')
         if not b.ok:
-            ctx.violation('block_incomplete', f'{d.name} ({d.block_type}, extent {d.position}+{d.size}) '
+            ctx.violation(short + '_incomplete', f'{d.name} ({d.block_type}, extent {d.position}+{d.size}) '
                           f'does not decode: {b.error} at byte {b.error_offset}{diag}', cs, **keys)
         else:
-            ctx.violation('block_size', f'{d.name} ({d.block_type}) decodes in {b.consumed} bytes, '
+            ctx.violation(short + '_size', f'{d.name} ({d.block_type}) decodes in {b.consumed} bytes, '
                           f'extent declares {d.size}{diag}', cs, **keys)
         if d.position + d.size > len(buf):
             reported_eof = True
@@ -1102,9 +1103,9 @@ def _mech(v):
 
 FINDING_PREDICATES = {
     # _PixWrap.write iterates range(0, n_rows, chunk) instead of over the pixel count
-    'sqw.writer.pix_chunk_loop_bound': lambda v: v['kind'] in ('block_incomplete', 'block_size')
+    'sqw.writer.pix_chunk_loop_bound': lambda v: v['kind'] == 'pix_block_incomplete'
     and _mech(v) == 'pix_chunk_loop_bound',
     # char-array shape / length written as number of characters, bytes written are UTF-8
-    'sqw.writer.string_length_in_characters': lambda v: v['kind'] in ('block_incomplete', 'block_size')
+    'sqw.writer.string_length_in_characters': lambda v: v['kind'] in ('data_block_incomplete', 'data_block_size')
     and _mech(v) == 'string_length_in_characters',
 }
